@@ -185,6 +185,17 @@ add("C05", "model_checking",
     "Populations are two household sets; supplied values are the computed ones (the 'if its values equal' case of the property).",
     "exhaustive enumeration of single-node overrides with a differential oracle and a tripwire observer", "2/C05")
 
+add("C06", "model_checking",
+    "Exhaustive over (a) every parameter group x change dates x populations x perturbation operators (all numeric leaves: floats x1.07 and "
+    "ints +1; floats only; rounding bases doubled): only rules that take the group's parameters (or are rounded by it) and their descendants "
+    "in the dependency graph may change, everything else must be bit-identical, and each group must change something (non-vacuity reported); "
+    "(b) every policy rule in the graph replaced by an identical clone (as dict entry and as list element), by a same-signature wrapper and by "
+    "a perturbed wrapper (+1 / logical not): identical replacements change nothing at all, the perturbed one only descendants of the rule; "
+    "(c) a deep copy of the parameter dictionary changes nothing.",
+    "Dependency sets come from the DAG built by the implementation's own dags machinery for the same data columns; perturbed runs that raise "
+    "are counted, not judged.",
+    "exhaustive enumeration of single-group / single-rule reforms with a differential oracle over all nodes", "2/C06")
+
 NOT_APPLICABLE = []
 
 
